@@ -34,6 +34,9 @@ TRUSTED = [
     'hand-written from the XPath 1.0 recommendation; they are compared with each other on every run',
     'not modelled: the `re` engine (tokenizer regex re-implemented by hand; matches() is `unmodelled`), expat '
     '(documents are built as event lists)',
+    'the printer Genshi/Model/PathPrint.lean is proved against the parser MODEL (parse_print, parse_print_abbrev); '
+    'that the real PathParser reads printed text the same way is the print / printa correspondence (the AST printed '
+    'is the model parse of a generated text, so only ASTs that some generated text denotes are exercised)',
 ]
 ASSUMPTIONS = [
     'streams are the events of one element tree (what the XML parser delivers for a document), possibly with '
@@ -315,9 +318,33 @@ def aimed_union_case(rng):
     return {'doc': doc, 'path': rng.choice(['|', ' | ']).join(ops)}
 
 
+def aimed_stacked_position_case(rng):
+    """ONE step with two or more position tests (boolean predicates may sit between) on a descendant /
+    descendant-or-self / child axis below a step that yields NESTED context nodes (an `a` inside an
+    `a`): one node is then tested against several counter packs, and GenericStrategy has to remember
+    per pack which of them already failed an earlier position test of the same step (`missed`, seeded
+    change C05-4).  XPath: each predicate renumbers what the previous ones kept, per context node."""
+    doc = G.rand_doc(rng, rng.choice([7, 9, 12]), deep=True)
+    lead = rng.choice(['//a', '//a', 'descendant::a', 'descendant-or-self::a', '//*', './/a', 'a//a',
+                       'descendant::*', '//b', 'descendant-or-self::*', '*//a', './/*'])
+    x = rng.choice(['a', 'b', 'b', '*', 'text()', 'node()'])
+    ax = rng.choice(['/descendant::', '/descendant::', '/descendant-or-self::', '//', '/'])
+    preds = []
+    for _ in range(rng.choice([2, 2, 3])):
+        preds.append('[%d]' % rng.choice([1, 1, 2, 2, 3]))
+        if rng.random() < 0.3:
+            preds.append(rng.choice(['[true()]', '[@n]', '[not(@zz)]', '[@n or not(@n)]']))
+    text = lead + ax + x + ''.join(preds)
+    if rng.random() < 0.2:
+        text += rng.choice(['/b', '/text()', '/@n', '|a', '|descendant::b[2]'])
+    return {'doc': doc, 'path': text, 'aim': 'stacked-position'}
+
+
 def gen_case(rng, profile=None):
     if profile is None and rng.random() < 0.08:
         return aimed_union_case(rng)
+    if profile is None and rng.random() < 0.06:
+        return aimed_stacked_position_case(rng)
     if profile is None and rng.random() < 0.08:
         # SimplePathStrategy with several fragments (hand-over between fragments, KMP fall-back)
         doc, text = G.rand_fragcase(rng)
@@ -384,6 +411,8 @@ def check_cases(cases, res, stream_prefix=''):
         for z in zones:
             res.count('zone:' + z)
         judged = not (zones & SKIP_ZONES)
+        if case.get('aim'):
+            res.count('aim:%s:%s' % (case['aim'], ('judged-nonempty' if info['expected'] else 'judged-empty') if judged else 'not-judged'))
         if f and judged:
             res.failures.append(f)
         exp = info['expected']
@@ -487,6 +516,176 @@ def check_model_only(cases, res):
                                       'real': repr(real)[:600]})
 
 
+
+# --------------------------------------------------------------------------
+# the printer (lean/Genshi/Model/PathPrint.lean) and the tokenizer: printed text vs the real parser
+
+PRINT_ATOMS = ['@n', '@m', '@x:n', '@*', '@x:*', 'b', 'x:b', 'x:*', '*', '$s', '$n', '"abc"', "'a b'", '""', '"it\'s"',
+               "'say \"hi\"'", 'a*b', '-1', 'b-c', '@a*', '1', '2', '02', '1.50', '.5', '0.05', '10', 'true()', 'false()', 'name()', 'local-name()',
+               'namespace-uri()']
+PRINT_FN = [('boolean', 1), ('ceiling', 1), ('floor', 1), ('normalize-space', 1), ('not', 1), ('number', 1),
+            ('round', 1), ('string-length', 1), ('contains', 2), ('starts-with', 2), ('substring-after', 2),
+            ('substring-before', 2), ('substring', 2), ('substring', 3), ('matches', 2), ('translate', 3),
+            ('concat', 1), ('concat', 2), ('concat', 3), ('concat', 4), ('concat', 5)]
+PRINT_OPS = ['or', 'and', '=', '!=', '<', '<=', '>', '>=']
+PRINT_STEPS = ['a', 'child::a', '//a', 'descendant::b', './/*', 'a/b', 'text()', 'processing-instruction("php")',
+               "processing-instruction('py')", 'processing-instruction()', 'comment()', 'node()', 'x:a', 'x:*', '*',
+               'self::a', 'descendant-or-self::a', '.', 'a//b', './a', 'attribute::n', '@n']
+
+
+def rand_print_expr(rng, depth):
+    """predicate expressions that stress the printer: operators of every level nested to the left and to the right,
+    with and without (redundant or needed) parentheses, calls of every arity, literals of both quote kinds, numbers"""
+    r = rng.random()
+    if depth <= 0 or r < 0.25:
+        return rng.choice(PRINT_ATOMS)
+    if r < 0.7:
+        op = rng.choice(PRINT_OPS)
+        l, rr = rand_print_expr(rng, depth - 1), rand_print_expr(rng, depth - 1)
+        if rng.random() < 0.3:
+            l = '(%s)' % l
+        if rng.random() < 0.3:
+            rr = '(%s)' % rr
+        sp = rng.choice([' ', ' ', '  ']) if op in ('or', 'and') else rng.choice(['', ' '])
+        return '%s%s%s%s%s' % (l, sp, op, sp, rr)
+    if r < 0.78:
+        return '(%s)' % rand_print_expr(rng, depth - 1)
+    f, n = rng.choice(PRINT_FN)
+    return '%s(%s)' % (f, rng.choice([',', ', ', ' , ']).join(rand_print_expr(rng, depth - 1) for _ in range(n)))
+
+
+def rand_print_text(rng):
+    r = rng.random()
+    if r < 0.35:
+        return G.rand_path(rng, rng.choice([G.FULL, G.FULL, G.STRUCT, G.SIMPLE, G.TYPED]))
+    ops = []
+    for _ in range(rng.choice([1, 1, 1, 2, 3])):
+        st = rng.choice(PRINT_STEPS)
+        if not st.endswith('n') or st in ('a',):
+            for _ in range(rng.choice([1, 1, 2, 0])):
+                st += '[%s]' % rand_print_expr(rng, rng.choice([1, 2, 2, 3]))
+        if rng.random() < 0.3:
+            st += rng.choice(['/b', '//b[1]', '/@n', '/text()', '/x:*[@n]'])
+        ops.append(st)
+    return rng.choice(['|', ' | ']).join(ops)
+
+
+MUT_CHARS = '[]()@/|,=<>!$:.*"\' \t\nab1-'
+
+
+def mutate_text(rng, t):
+    k = rng.randrange(7)
+    if not t:
+        return rng.choice(MUT_CHARS)
+    i = rng.randrange(len(t))
+    if k == 0:
+        return t[:i] + t[i + 1:]
+    if k == 1:
+        return t[:i] + rng.choice(MUT_CHARS) + t[i:]
+    if k == 2:
+        return t[:i] + t[i] + t[i:]
+    if k == 3 and i + 1 < len(t):
+        return t[:i] + t[i + 1] + t[i] + t[i + 2:]
+    if k == 4:
+        return t.replace(' ', '')
+    if k == 5:
+        j = t.find(' ', i)
+        return t if j < 0 else t[:j] + t[j + 1:]
+    return t[:i] + rng.choice(MUT_CHARS) + t[i + 1:]
+
+
+def real_tokens(text):
+    from genshi import path as P
+    try:
+        return list(P.PathParser(text).tokens)
+    except Exception as e:  # noqa
+        return [Atom('err'), Atom(exc_name(e))]
+
+
+def check_print(texts, rng, res):
+    """streams `print` / `printa` (unabbreviated / abbreviated steps): the model parses `text`, prints the AST
+    (`Print.printPaths` / `Print.printPathsA`), and the REAL parser must read the
+    printed text as the AST it reads from `text` (= the model's); `print-tokens`: the real tokenizer on the printed
+    text gives the printer's token list; `print-tokens-mutated` / `print-parse-mutated`: tokenizer and parser, model
+    vs code, on damaged printed texts."""
+    mlines, mplan = [], []
+    jobs = [(verb, t) for t in texts for verb in ('print', 'printa')]
+    answers = proto.run_lines([proto.line(Atom('C05'), Atom(verb), t) for verb, t in jobs])
+    for (verb, text), ans in zip(jobs, answers):
+        res.evaluations += 1
+        case = {'path': text, 'stream': verb}
+        if ans == 'unmodelled':
+            res.count(verb + ':unmodelled')
+            continue
+        try:
+            m = proto.dec(ans)
+        except Exception:  # noqa
+            res.disagreements.append({'stream': verb, 'case': case, 'model': ans[:300], 'real': 'undecodable'})
+            continue
+        if m[0] != 'ok':
+            res.count(verb + ':' + str(m[0]))
+            if m[0] == 'unprintable' and verb == 'print':
+                for mark, why in (('text()', 'node-type'), ('comment()', 'node-type'), ('node()', 'node-type'),
+                                  ('processing-instruction', 'node-type'), ('[.', 'dot'), ('-', 'minus'),
+                                  ('matches(', 'matches')):
+                    if mark in text:
+                        res.count('print:unprintable:' + why)
+                        break
+                else:
+                    res.count('print:unprintable:other')
+            continue
+        printed, toks, back, same = m[1], m[2], m[3], m[4]
+        case['printed'] = printed
+        res.count(verb + ':ok')
+        res.streams[verb] = res.streams.get(verb, 0) + 1
+        if verb == 'printa':
+            res.count('printa:abbreviated' if '::' not in printed else 'printa:has-explicit-axis')
+        if '( ' in printed:
+            res.count('print:has-paren')
+        res.count('print:preds=%d' % min(printed.count('['), 4))
+        for mark, name in (('|', 'union'), ('"', 'string'), ("'", 'string'), (' or ', 'or'), (' and ', 'and'),
+                           (' , ', 'multi-arg-call')):
+            if mark in printed:
+                res.count('print:' + name)
+        if any(ch.isdigit() for ch in printed):
+            res.count('print:number')
+        real_orig, real_back = real_parse(text), real_parse(printed)
+        if str(same) != 'T':
+            res.disagreements.append({'stream': verb, 'case': case, 'model': 'round trip in the model: ' + repr(back)[:400],
+                                      'real': repr(real_orig)[:400]})
+        elif real_back != real_orig or real_back != back:
+            res.disagreements.append({'stream': verb, 'case': case, 'model': repr(back)[:500],
+                                      'real': repr(real_back)[:300] + ' <- printed | original -> ' + repr(real_orig)[:300]})
+        else:
+            res.nontrivial.add(verb + '|' + path_shape(printed))
+        rt = real_tokens(printed)
+        res.streams[verb + '-tokens'] = res.streams.get(verb + '-tokens', 0) + 1
+        if rt != toks:
+            res.disagreements.append({'stream': verb + '-tokens', 'case': case, 'model': repr(toks)[:500], 'real': repr(rt)[:500]})
+        for _ in range(2):
+            mt = mutate_text(rng, printed)
+            if any(ord(c) > 127 for c in mt):
+                continue
+            mlines.append(proto.line(Atom('C05'), Atom('tokens'), mt))
+            mplan.append(('print-tokens-mutated', mt, real_tokens(mt)))
+            mlines.append(proto.line(Atom('C05'), Atom('parse'), mt))
+            mplan.append(('print-parse-mutated', mt, real_parse(mt)))
+    for (name, mt, real), ans in zip(mplan, proto.run_lines(mlines)):
+        if ans in ('unmodelled', 'unsupported'):
+            res.count('model:%s:%s' % (ans, name))
+            continue
+        try:
+            model = proto.dec(ans)
+        except Exception:  # noqa
+            model = Atom(ans)
+        res.streams[name] = res.streams.get(name, 0) + 1
+        if name == 'print-parse-mutated' and real[0] == 'err':
+            res.count('print-mutated-error:' + str(real[1]))
+        if model != real:
+            res.disagreements.append({'stream': name, 'case': {'path': mt, 'stream': name}, 'model': repr(model)[:500],
+                                      'real': repr(real)[:500]})
+
+
 def shard(arg):
     import random
     seed, idx, n = arg
@@ -503,6 +702,8 @@ def shard(arg):
         extra.append({'doc': G.rand_doc(rng, 4), 'path': rng.choice([t[:cut], t[cut:], t[:cut] + rng.choice('[]()@/|,=<>!$:.*') + t[cut:]])})
     check_model_only(extra, res)
     check_cases(cases, res)
+    prng = random.Random('%s/%s/C05/print' % (seed, idx))
+    check_print([rand_print_text(prng) for _ in range(max(40, n // 6))], prng, res)
     res.samples = [{'doc': G.doc_xml(c['doc']), 'path': c['path']} for c in cases[:2] if 'doc' in c]
     return res
 
@@ -620,6 +821,8 @@ def replay(ctx, case):
     if isinstance(case.get('doc'), str):
         raise ValueError('doc must be a tree')
     from harness.framework import canon
+    if 'doc' not in case and case.get('kind') != 'reject':
+        return None       # a case of a correspondence-only stream (print, tokens): no oracle to replay
     listed = canon(case) in _listed_inputs()
     if not listed and 'doc' in case and not doc_valid(case['doc']):
         return None
